@@ -54,6 +54,29 @@ def run(R):
             R.violation(f'build-raises-{type(c).__name__}', f'cannot build class {name}: {c!r}', W)
             continue
         emit_and_check(R, name, r, c, W)
+        # the same cell objects serialised as parts of different bags: a descendant on its own after its ancestor, then the ancestor again
+        # (every emission must be right whatever was emitted before from the same objects)
+        if 1 < ncells <= 400:
+            subs = []
+            stack = [(c, r)]
+            seen = set()
+            while stack and len(subs) < 4:
+                lc, rr = stack.pop()
+                for lk, rk in zip(lc.refs, rr.refs):
+                    if rk.hash not in seen and rk.refs:
+                        seen.add(rk.hash)
+                        subs.append((lk, rk))
+                        stack.append((lk, rk))
+            for lk, rk in subs:
+                emit_and_check(R, name + '/descendant-after-ancestor', rk, lk, dict(W, sequence='root, then descendant'))
+                R.count('multi_bag_emissions')
+            if subs:
+                emit_and_check(R, name + '/ancestor-after-descendant', r, c, dict(W, sequence='root, descendants, root again'))
+                # a new parent around an already serialised cell
+                parent_r = rc.RC('1011', (r, subs[0][1]))
+                st2, parent = mon.call(lambda: B.Builder().store_bits('1011').store_ref(c).store_ref(subs[0][0]).end_cell())
+                if st2 == 'ok':
+                    emit_and_check(R, name + '/new-parent-of-serialised-cells', parent_r, parent, dict(W, sequence='children first, then a new parent'))
         R.case(mon.fp(r.hash) if ncells > 1 else None, sample={'class': name, 'cells': ncells})
         R.cover('classes', name)
         R.extra['largest_dag'] = max(R.extra.get('largest_dag', 0), ncells)
@@ -70,6 +93,7 @@ def run(R):
             R.case(mon.fp('plain', bits))
     R.floor('emissions:idx1crc1cache1', 5)
     R.floor('index_entries_verified', 50)
+    R.floor('multi_bag_emissions', 20)
 
 
 def replay(R, w, rec):
